@@ -27,7 +27,7 @@ RULE = ("cases: (permutation, format, column variant); executions: one call per 
         "(case, function, selector, form) with a non-identity permutation and at least one fit kept")
 ASSUMPTIONS = ["package self-consistent: convolved files and parameter table share the row order", "model names unique"]
 REQUIRED_CLASSES = ['keeps-none', 'keeps-one', 'keeps-some', 'keeps-all', 'form-file', 'form-object', 'form-list', 'additional-1', 'additional-2', 'nan-column', 'four-columns',
-                    'write_parameters', 'write_parameter_ranges', 'extract_parameters', 'filter_table', 'plot-params-table', 'permuted']
+                    'write_parameters', 'write_parameter_ranges', 'extract_parameters', 'filter_table', 'plot-params-table', 'permuted', 'parameters-gz']
 TIMEOUT = {'quick': 600, 'thorough': 3000}
 
 
@@ -35,7 +35,7 @@ def setup(tier, seed):
     n = 4 if tier == 'quick' else 5
     out = []
     for i, p in enumerate(itertools.permutations(range(n))):
-        out.append({'n': n, 'perm': list(p), 'fmt': 'v1' if i % 2 == 0 else 'v2', 'n_cols': [2, 1, 4][i % 3], 'nan': (i % 4 == 1), 'plots': (i in (5, 17) if tier == 'quick' else i % 20 == 5)})
+        out.append({'n': n, 'perm': list(p), 'fmt': 'v1' if i % 2 == 0 else 'v2', 'n_cols': [2, 1, 4][i % 3], 'nan': (i % 4 == 1), 'plots': (i in (5, 17) if tier == 'quick' else i % 20 == 5), 'par_gz': (i % 5 == 2), 'text_col': (i % 7 == 3)})
     return {'tier': tier, 'seed': seed, 'cases': out}
 
 
@@ -65,7 +65,9 @@ def run_case(ctx, case, rec, d):
     from sedfitter.fit_info import FitInfo
     seed = ctx['seed']
     n, perm = case['n'], case['perm']
-    md, pk = pc.build(d, 'pkg', case['fmt'], n, perm=perm, n_cols=case['n_cols'], nan_col=case['nan'], seed=seed)
+    md, pk = pc.build(d, 'pkg', case['fmt'], n, perm=perm, n_cols=case['n_cols'], nan_col=case['nan'], seed=seed, par_gz=case.get('par_gz', False))
+    if case.get('par_gz'):
+        rec.cls('parameters-gz')
     fitter = pc.fitter_for(md)
     srcs = pc.sources(pk, seed, n_sources=3)
     base_infos = pc.fit_all(fitter, srcs)
@@ -250,7 +252,8 @@ def run_case(ctx, case, rec, d):
                         rec.nontriv((cfg, 'ex', sel, form))
                 # ---------------- filter_table directly, on the name-sorted table the writers use
                 if form == 'object':
-                    t = Table.read(os.path.join(md, 'parameters.fits'), format='fits', character_as_bytes=False)
+                    ppath = os.path.join(md, 'parameters.fits')
+                    t = Table.read(ppath if os.path.exists(ppath) else ppath + '.gz', format='fits', character_as_bytes=False)
                     t['MODEL_NAME'] = np.char.strip(t['MODEL_NAME'])
                     t.sort('MODEL_NAME')
                     info = pc.fit_all(fitter, srcs)[0]
